@@ -28,6 +28,16 @@ Theorem C07_init_establishes_invariant : forall tab sd,
 Proof. exact cc_init_inv. Qed.
 Print Assumptions C07_init_establishes_invariant.
 
+(* from_contraction_tree: the contractions are exactly the N-1 internal nodes of the tree (one
+   row per Node, in dfs order, none for a leaf / input tensor).  Hence `size` ranges over the
+   intermediates only, like ContractionTree.max_size. *)
+Theorem C07_contractions_are_internal_nodes : forall n sl t,
+  c_tab (costs_of_tree n sl t) = map (row_of n sl) (traverse_dfs t) /\
+  length (c_tab (costs_of_tree n sl t)) = (nleaves t - 1)%nat /\
+  forall bt, In bt (traverse_dfs t) -> exists l r, snd bt = Node l r.
+Proof. exact contractions_are_internal_nodes. Qed.
+Print Assumptions C07_contractions_are_internal_nodes.
+
 (* remove(ix), statement by statement, acts on the table as row_remove (drop ix, divide
    flops where involved and size where it is a leg), multiplies nslices by the dimension
    and re-establishes every derived field *)
